@@ -173,6 +173,22 @@ func solveOne(o *Obligation, dir string, timeout int, wantModel bool) SolveResul
 	if r.Status == "" {
 		r.Status = "unknown"
 	}
+	if !o.Canary && strings.Contains(r.Output, "timeout") && timeout < 60 {
+		// Every solver gave up within the quick limit. Typical obligations take well under a
+		// second, so a timeout is most often a loaded machine: try once more with a long limit
+		// before reporting the obligation as not discharged.
+		for _, sc := range solvers[:1] {
+			st, out, secs := runSolver(sc, 90, file)
+			r.Seconds += secs
+			if st == "unsat" || st == "sat" {
+				r.Status, r.Solver = st, sc.name+" (retry, long limit)"
+				if st == "sat" {
+					r.Output = out
+				}
+				return r
+			}
+		}
+	}
 	return r
 }
 
